@@ -139,6 +139,45 @@ func refInt(k TK, base int, s string) RefVal {
 	return RefVal{Cls: MustReject, Why: "not a base-" + itoa(base) + " integer"}
 }
 
+// BaseAuto stands for the tag base:"0": the base is implied by the text's prefix (0x, 0o, 0b, a leading 0 for
+// octal, decimal otherwise), as strconv documents for base 0.
+const BaseAuto = -1
+
+func refIntAuto(k TK, s string) RefVal {
+	body := s
+	sign := ""
+	if strings.HasPrefix(body, "-") || strings.HasPrefix(body, "+") {
+		sign, body = body[:1], body[1:]
+	}
+	base := 10
+	lb := strings.ToLower(body)
+	switch {
+	case strings.HasPrefix(lb, "0x"):
+		base, body = 16, body[2:]
+	case strings.HasPrefix(lb, "0b"):
+		base, body = 2, body[2:]
+	case strings.HasPrefix(lb, "0o"):
+		base, body = 8, body[2:]
+	case len(body) > 1 && body[0] == '0':
+		base, body = 8, body[1:]
+	}
+	if strings.Contains(body, "_") {
+		// underscores are legal only in some positions; not judged
+		r := refInt(k, base, sign+strings.ReplaceAll(body, "_", ""))
+		if r.Cls == MustAccept {
+			r.Cls = MayEither
+		}
+		return r
+	}
+	if body == "" || strings.HasPrefix(body, "-") || strings.HasPrefix(body, "+") {
+		return RefVal{Cls: MustReject, Why: "no digits"}
+	}
+	if _, ok := parseDigits(body, base); !ok {
+		return RefVal{Cls: MustReject, Why: "not an integer in the base its prefix implies"}
+	}
+	return refInt(k, base, sign+body)
+}
+
 func itoa(i int) string { return big.NewInt(int64(i)).String() }
 
 // decimal float grammar: [+-] digits [. digits] [eE [+-] digits]  |  [+-] . digits [...]
@@ -461,6 +500,9 @@ func RefScalar(k TK, base int, s string) RefVal {
 		if base == 0 {
 			base = 10
 		}
+		if base == BaseAuto {
+			return refIntAuto(k, s)
+		}
 		return refInt(k, base, s)
 	case k == KFloat32 || k == KFloat64:
 		return refFloat(k, s)
@@ -470,6 +512,18 @@ func RefScalar(k TK, base int, s string) RefVal {
 		return refCelsius(s)
 	case k == KPoint:
 		return refPoint(s)
+	case k == KOnOff:
+		if s == "on" || s == "off" {
+			return RefVal{Cls: MustAccept, HasVal: true, Val: reflect.ValueOf(OnOff(s == "on"))}
+		}
+		return RefVal{Cls: MustReject, Why: "neither on nor off"}
+	case k == KRes:
+		if strings.Contains(s, "!") {
+			return RefVal{Cls: MustReject, Why: "the type's own UnmarshalFlag refuses texts with !"}
+		}
+		return RefVal{Cls: MustAccept, HasVal: true, Val: reflect.ValueOf(Res(strings.ToLower(s)))}
+	case k == KBag:
+		return RefVal{Cls: MustAccept, HasVal: true, Val: reflect.ValueOf(Bag{items: []string{s}})}
 	}
 	panic("RefScalar: bad kind")
 }
